@@ -160,7 +160,7 @@ def _p_value_backgrounds(f, A, B, A_csum, nq, n_bins, t_max, offset):
 			j, c = uint64(j), uint64(offset * (nq - j + i - 1))
 			
 			if i == j:
-				for l in range(1, n_bins+1):
+				for l in range(n_bins+1):
 					l = uint64(l)
 					A[i, j, l+c] = f[j, l]
 			else:            
@@ -171,7 +171,7 @@ def _p_value_backgrounds(f, A, B, A_csum, nq, n_bins, t_max, offset):
 					if a == 0:
 						continue
 						
-					for l in range(1, n_bins+1):
+					for l in range(n_bins+1):
 						l = uint64(l)
 						A[i, j, l+k+c] += a * f[j, l]
 					
